@@ -34,7 +34,7 @@ def TIMEOUT(tier):
     return 900 if tier == "quick" else 5400
 
 
-WORKLOADS = ["independent", "parent_single", "parent_group", "retry", "mixed"]
+WORKLOADS = ["independent", "parent_single", "parent_group", "retry", "mixed", "abnormal_exit"]
 
 
 def gen_cases(tier, seed):
@@ -45,9 +45,9 @@ def gen_cases(tier, seed):
     for backend in ("mem", "sqlite"):
         for w in wl:
             for r in range(reps):
-                if backend == "sqlite" and not thorough and w not in ("parent_single", "independent"):
+                if backend == "sqlite" and not thorough and w not in ("parent_single", "parent_group"):
                     continue
-                cases.append({"backend": backend, "workload": w, "slots": 1 + (len(w) + r) % 3, "seed": seed * 911 + r, "stride": 1 if thorough else (4 if backend == "mem" else 12),
+                cases.append({"backend": backend, "workload": w, "slots": 1 + (len(w) + r) % 3, "seed": seed * 911 + r, "stride": 1 if thorough else (3 if backend == "mem" else 9),
                               "second_runner": False})
     cases.append({"backend": "mem", "workload": "parent_single", "slots": 1, "seed": seed * 911 + 77, "stride": 6 if not thorough else 2, "second_runner": True})
     return cases
@@ -64,11 +64,16 @@ def build_workload(sim, name):
         for i in range(n):
             roots.append(node({"id": 100 + i, "v": i, "mode": "leaf", "children": []}))
     elif name == "parent_single":
-        roots.append(node({"id": 1, "v": 1, "mode": "single", "children": [{"id": 2, "v": 2, "mode": "leaf", "children": []}, {"id": 3, "v": 3, "mode": "leaf", "children": []}]}))
+        roots.append(node({"id": 1, "v": 1, "mode": "single", "children": [{"id": 2, "v": 2, "mode": "leaf", "children": [], "work": 40}, {"id": 3, "v": 3, "mode": "leaf", "children": [], "work": 10}]}))
     elif name == "parent_group":
-        roots.append(node({"id": 1, "v": 1, "mode": "group", "children": [{"id": 2, "v": 2, "mode": "leaf", "children": []}, {"id": 3, "v": 3, "mode": "leaf", "children": []}]}))
+        roots.append(node({"id": 1, "v": 1, "mode": "group", "children": [{"id": 2, "v": 2, "mode": "leaf", "children": [], "work": 40}, {"id": 3, "v": 3, "mode": "leaf", "children": [], "work": 25}]}))
     elif name == "parent_deep":
         roots.append(node({"id": 1, "v": 1, "mode": "single", "children": [{"id": 2, "v": 2, "mode": "group", "children": [{"id": 4, "v": 1, "mode": "leaf", "children": []}, {"id": 5, "v": 1, "mode": "leaf", "children": []}]}]}))
+    elif name == "abnormal_exit":
+        ab = app.task(T.abnormal)
+        roots.append(ab({"id": 70, "v": 0}))
+        roots.append(node({"id": 71, "v": 1, "mode": "leaf", "children": [], "work": 60}))
+        sim.abnormal_ids = {roots[0].invocation_id}
     elif name.startswith("retry"):
         roots.append(flaky({"id": 50, "v": 7, "fails": 1 if name == "retry" else 2}))
         roots.append(node({"id": 51, "v": 1, "mode": "leaf", "children": []}))
@@ -93,7 +98,8 @@ def one_run(case, stop_at):
         while True:
             if s.stop_done_at is not None:
                 return
-            if all(orch.get_invocation_status(r.invocation_id).is_final() for r in s.roots):
+            ab = getattr(s, "abnormal_ids", set())
+            if all(orch.get_invocation_status(r.invocation_id).is_final() for r in s.roots if r.invocation_id not in ab) and (not ab or sc.step > 400):
                 break
             sc.yield_point("sleep")
         result["roots_final_at"] = sc.step
@@ -113,6 +119,8 @@ def one_run(case, stop_at):
         return None
 
     def on_step_extra(sc):
+        if sim.stop_done_at is not None and "tracked" not in phase and sim.runner is not None:
+            phase["tracked"] = {k: v.thread.is_alive() for k, v in sim.runner.threads.items()}
         if stop_at is not None and sim.stop_done_at is not None and "vec" not in phase:
             try:
                 orch = sim.app.orchestrator
@@ -156,9 +164,16 @@ def one_run(case, stop_at):
         rows = []
         for i in sim.known_ids():
             rec = orch.get_invocation_status_record(i)
-            rows.append({"inv": i[:8], "status": rec.status.name, "owner": rec.runner_id, "queued": q.count(i), "claimed_by_runner": i in sim.claimed, "owned_by_runner": rec.runner_id == rid})
+            try:
+                is_child = app.state_backend.get_invocation(i).parent_invocation_id is not None
+            except Exception:
+                is_child = False
+            rows.append({"inv": i[:8], "status": rec.status.name, "owner": rec.runner_id, "queued": q.count(i), "claimed_by_runner": i in sim.claimed, "owned_by_runner": rec.runner_id == rid,
+                         "is_child": is_child})
         verdict["rows"] = rows
         verdict["runner_id"] = rid
+        verdict["tracked_at_stop"] = {k[:8]: v for k, v in getattr(sim, "tracked_at_on_stop", {}).items()}
+        verdict["abnormal"] = [i[:8] for i in getattr(sim, "abnormal_ids", set())]
     finally:
         sim.close()
     return verdict
@@ -174,7 +189,11 @@ def judge(case, stop_at, v, V, hooks):
     if not v["returned"]:
         if v["lasso"]:
             waiting_parent = any(r["status"] in ("KILLED", "REROUTED", "RUNNING") and r["claimed_by_runner"] for r in v["rows"])
-            V.append({"sig": f"stop-never-completes:join-on-waiting-thread{alone}" if waiting_parent else f"stop-never-completes{alone}",
+            # mechanism: is the awaited sub-invocation one that nobody ever claimed (it sits in the queue and no runner is left),
+            # or one that was running in this very runner and was taken away before its parent was joined?
+            child_claimed = any(r["claimed_by_runner"] and r["is_child"] and r["status"] not in FINALS for r in v["rows"])
+            mech = "join-on-waiting-thread" + (":awaited-child-was-claimed-by-this-runner" if child_claimed else "")
+            V.append({"sig": f"stop-never-completes:{mech}{alone}" if waiting_parent else f"stop-never-completes{alone}",
                       "what": f"stop requested at step {stop_at}: run() never returns (global state repeats over steps {v['lasso']['from_step']}..{v['lasso']['to_step']} while "
                               f"{v['lasso']['live_actors']} keep running)", "witness": {**wit, "lasso": v["lasso"]}})
             return "hang"
@@ -190,6 +209,11 @@ def judge(case, stop_at, v, V, hooks):
         ok = r["status"] in FINALS or (r["status"] in AVAILABLE and r["owner"] is None and r["queued"] >= 1)
         if case.get("second_runner") and r["owner"] == "second-runner":
             ok = True
+        if r["inv"] in v.get("abnormal", []) and r["inv"] not in v.get("tracked_at_stop", {}):
+            # its thread died abnormally and had already been reclaimed by the loop before _on_stop began: outside the
+            # workloads of the property (counted, not judged)
+            hooks["abnormal_already_reclaimed_not_judged"] += 1
+            continue
         if not ok:
             kind = "owned" if r["owned_by_runner"] else ("unqueued" if r["queued"] == 0 else "other")
             V.append({"sig": f"after-stop:{r['status']}:{kind}{alone}", "what": f"after run() returned, invocation {r['inv']} claimed by the runner is {r['status']} (owner {r['owner']}, queued {r['queued']}x)",
